@@ -190,7 +190,7 @@ def streams(tier, rng):
                 cases.append((1371, a)); cases.append((1374, a + [[]]))
                 if big or n == 1:
                     cases.append((1370, a))
-    yield "exh_configs_pack_roundtrip", "exact", cases
+    yield "exh_nak_configs_pack_roundtrip", "exact", cases
     # 2. every number of segment requests 0..40, CRC on/off, normal/large; the 65535 data-field limit
     cases = []
     for n in range(0, 41):
@@ -207,7 +207,7 @@ def streams(tier, rng):
                 cases.append((1374, a + [[]]) if crc == 0 else (1371, a))
         a = _rand_pdu(rng, 300, crc=crc, large=large)
         cases.append((1371, a)); cases.append((1374, a + [[]]))
-    yield "exh_segment_counts", "exact", cases
+    yield "exh_nak_segment_counts", "exact", cases
     # 3. offsets at and beyond the 32/64-bit range in every position
     cases = []
     vals = [0, 1, 2 ** 31 - 1, 2 ** 31, 2 ** 32 - 1, 2 ** 32, 2 ** 32 + 1, 2 ** 63, 2 ** 64 - 1, 2 ** 64, 2 ** 65, -1, -2 ** 31]
@@ -224,7 +224,7 @@ def streams(tier, rng):
                     cases.append((1371, a)); cases.append((1374, a + [[]]))
                     if pos in (0, 3):
                         cases.append((1370, a))
-    yield "offset_boundaries", "exact", cases
+    yield "nak_offset_boundaries", "exact", cases
     # 4. random PDUs: pack, round trip, round trip with suffix (look-alike continuations), decode of pack ++ suffix
     cases = []
     for _ in range(20000 if big else 2500):
@@ -238,7 +238,7 @@ def streams(tier, rng):
         cases.append((1374, a + [sfx]))
         if valid_nak(a):
             cases.append((1372, [lay(a) + sfx])); cases.append((1373, [lay(a)]))
-    yield "random_roundtrip_suffix", "exact", cases
+    yield "nak_random_roundtrip_suffix", "exact", cases
     # 5. targeted malformed: every truncation; substitutions in header / length / directive octets;
     #    length field set to other values (CRC made right for the altered PDU)
     cases = []
@@ -273,7 +273,7 @@ def streams(tier, rng):
         body = ([8] + [rng.choice([0, 1, 0xFF, rng.randrange(256)]) for _ in range(dl)])[:dl]
         q = _with_crc(hdr + body, len(hdr))
         cases.append((1372, [q])); cases.append((1373, [q]))
-    yield "targeted_malformed", "exact", cases
+    yield "nak_targeted_malformed", "exact", cases
     # 6. get_max_seg_reqs_for_max_packet_size_and_pdu_cfg: every size 0..200 for every (crc, large) and
     #    several width combinations (PduConfig.header_len adds the three widths), the method on a PDU
     cases = []
@@ -296,7 +296,7 @@ def streams(tier, rng):
     for crc in (2, 3, -1):
         ids, flags = _rand_conf(rng); flags[2] = crc
         cases.append((1375, [ids, flags, [100]]))
-    yield "exh_max_seg_reqs", "exact", cases
+    yield "exh_nak_max_seg_reqs", "exact", cases
     # 7. histories of setter calls (segment requests, file flag, scopes); the caller's PduConfig afterwards
     cases = []
     for _ in range(5000 if big else 900):
@@ -321,7 +321,7 @@ def streams(tier, rng):
     for sl, dl, ql in itertools.product((0, 1, 2, 4, 8), repeat=3):   # constructor refusals of the header
         ids = [0, sl, 0, dl, 0, ql]
         cases.append((1370, [ids, [0, rng.randrange(2), rng.randrange(2), 0, 0], [0, 0], []]))
-    yield "setter_histories_ctor", "exact", cases
+    yield "nak_setter_histories_ctor", "exact", cases
     # 8. __eq__: identical arguments, one field changed
     cases = []
     for _ in range(3000 if big else 500):
@@ -338,7 +338,7 @@ def streams(tier, rng):
         elif k == 6: b[0][2] = (b[0][2] + 1) % 256 ** b[0][3]
         elif k == 7 and a[1][1] == 0: b[1][1] = 1
         cases.append((1377, a + b))
-    yield "equality", "exact", cases
+    yield "nak_equality", "exact", cases
     # 9. garbage: random octets biased to NAK-like headers with valid widths and consistent lengths
     cases = []
     for _ in range(30000 if big else 4000):
@@ -360,7 +360,7 @@ def streams(tier, rng):
         cases.append((1372, [d]))
         if rng.random() < 0.3:
             cases.append((1373, [d]))
-    yield "garbage", "verdict", cases
+    yield "nak_garbage", "verdict", cases
 
 
 # ------------------------------------------------------------------ oracle
